@@ -667,7 +667,7 @@ def main(argv):
     # hash-seed slices with the real set (thorough): validates that the seam models the real thing
     slice_info = []
     harness_errors = []
-    for i in range(cfg.get('hashseed_slices', 0)):
+    for i in range(0 if os.environ.get('HPLSIM_SLICE') else cfg.get('hashseed_slices', 0)):
         hs = str(101 + i)
         env = dict(os.environ)
         env['HPLSIM_HASHSEED'] = hs
@@ -737,10 +737,13 @@ def main(argv):
                 continue
         new.append((path, '%s on `%s`: %s' % (mv['class'], mv['text'][:200], mv['detail'][:200])))
 
+    # the same check, other run indices, under other interpreter configurations (python -O)
+    slices = [] if args.digests else core.run_config_slices(PROP, args.tier, max(8, cfg['runs'] // 10), new, known_hits, harness_errors)
     wall = time.monotonic() - t0
     allx = executable_lines(os.path.join(core.SRC, 'hpl', 'rewrite.py'))
     runs = stats.get('runs', 0)
     coverage = {
+        'interpreter_configuration_slices': slices,
         'evaluations': int(stats.get('evaluations', 0)),
         'distinct_nontrivial': int(distinct_changed),
         'rule': 'cases = (generated input, iteration-order policy, valuation) triples judged by the reference evaluator; '
